@@ -74,28 +74,38 @@ def grammar(n, per, **kw):
     a.update(kw)
     return {'scen': 'grammar', 'args': a, 'n': n}
 
-P('C12', theorems=[],
+P('C05', theorems=['Tcs.fault_safety', 'Tcs.runF_noFault', 'Tcs.commitId_sql', 'Tcs.commitLast_getChildVersion', 'Tcs.commitLast_addVersion', 'Tcs.commitLast_addSnapshot', 'Tcs.commitLast_getSnapshot', 'Tcs.commitLast_ensureFixed'],
+  module='Tcs.Proofs.FaultSafety',
+  owned={'av.kind', 'gcv.kind', 'as.kind', 'gs.kind', 'http.status', 'state.dump', 'fault.consumed'},
+  oracles=[O.o_c05],
+  plan={'quick': [{'scen': 'fault', 'args': {}, 'n': 24}], 'thorough': [{'scen': 'fault', 'args': {}, 'n': 400}, {'scen': 'fault', 'args': {'double': '1'}, 'n': 200}]})
+P('C12', theorems=['Tcs.asRunH_countSince', 'Tcs.C12_counter', 'Tcs.C12_only_inputs', 'Tcs.C12_levels', 'Tcs.C12_thresholds_ordered', 'Tcs.C12_monotone', 'Tcs.C12_no_overflow', 'Tcs.C12_meets_spec', 'Tcs.C12_pinned_overflow', 'Tcs.C12_fix_conservative'],
   owned={'av.urgency', 'http.urgency.av', 'dump.own.since', 'av.kind'},
   oracles=[O.o_c12_urgency, O.o_c12_counter],
   plan={'quick': [{'scen': 'urgency', 'args': {'shards': 8}, 'n': 8, 'shards': 8}, hist('c10', 60, 'mem:lib,sql:lib,sql:http')],
         'thorough': [{'scen': 'urgency', 'args': {'shards': 16, 'dense': '1'}, 'n': 16, 'shards': 16}, hist('c10', 2000, 'mem:lib,sql:lib,sql:http')]})
-P('C14', owned={'http.status.av', 'http.status.gcv', 'http.status.as', 'http.status.gs', 'http.headers.av', 'http.headers.gcv', 'http.headers.as', 'http.headers.gs', 'http.urgency.av', 'http.ctype.gcv', 'http.ctype.gs', 'http.body.gcv', 'http.body.gs'},
+P('C14', theorems=['Tcs.C14_decode_respond', 'Tcs.C14_handler_uses_respond', 'Tcs.C14_table', 'Tcs.C14_respond_injective', 'Tcs.serve_factor'],
+  owned={'http.status.av', 'http.status.gcv', 'http.status.as', 'http.status.gs', 'http.headers.av', 'http.headers.gcv', 'http.headers.as', 'http.headers.gs', 'http.urgency.av', 'http.ctype.gcv', 'http.ctype.gs', 'http.body.gcv', 'http.body.gs'},
   oracles=[O.o_c14_table],
   aligned=[('mem:http', 'mem:lib', 'C14: every HTTP response decodes to exactly the library outcome of the same request on a twin storage'),
            ('sql:http', 'sql:lib', 'C14: every HTTP response decodes to exactly the library outcome of the same request on a twin storage')],
   plan={'quick': [hist('default', 200, 'mem:http,mem:lib,sql:http,sql:lib'), grammar(8, 120, wf='1', lists='none')],
         'thorough': [hist('default', 3000, 'mem:http,mem:lib,sql:http,sql:lib'), grammar(64, 300, wf='1', lists='none')]})
-P('C15', owned={'http.status', 'noop.dump', 'calls.txns'},
+P('C15', theorems=['Tcs.C15_refused', 'Tcs.C15_unknown_route', 'Tcs.C15_refused_no_storage', 'Tcs.C15_limit_inclusive', 'Tcs.C15_oversized', 'Tcs.C15_no_5xx', 'Tcs.serve_factor'],
+  owned={'http.status', 'noop.dump', 'calls.txns'},
   oracles=[O.o_c15],
   plan={'quick': [grammar(16, 160, lists='none,one'), grammar(2, 40, big='1', backends='mem', lists='none')],
         'thorough': [grammar(160, 300, lists='none,one,many'), grammar(8, 60, big='1', backends='mem,sql', lists='none')]})
-P('C16', owned={'http.status', 'calls.txns', 'noop.dump'},
+P('C16', theorems=['Tcs.C16_unlisted', 'Tcs.C16_unlisted_403', 'Tcs.C16_listed_transparent', 'Tcs.C16_no_list', 'Tcs.C16_empty_list', 'Tcs.serve_factor'],
+  owned={'http.status', 'calls.txns', 'noop.dump'},
   oracles=[O.o_c16],
   plan={'quick': [grammar(24, 150, lists='one,many,empty,none')], 'thorough': [grammar(240, 300, lists='one,many,empty,none')]})
-P('C20', owned={'http.cache'},
+P('C20', theorems=['Tcs.C20_all_responses', 'Tcs.C20_value', 'Tcs.C20_wrapper_idempotent'],
+  owned={'http.cache'},
   oracles=[O.o_c20],
   plan={'quick': [grammar(12, 160), hist('default', 40, 'mem:http,sql:http')], 'thorough': [grammar(120, 300), hist('default', 600, 'mem:http,sql:http')]})
-P('C06', owned={'gcv.payload', 'snap.payload', 'http.body.gcv', 'http.body.gs', 'gcv.ids', 'snap.vid'},
+P('C06', theorems=['Tcs.C06_assemble', 'Tcs.C06_chunking_irrelevant', 'Tcs.C06_split_anywhere', 'Tcs.C06_version_roundtrip', 'Tcs.C06_snapshot_roundtrip', 'Tcs.C06_response_body', 'Tcs.assemble_spec'],
+  owned={'gcv.payload', 'snap.payload', 'http.body.gcv', 'http.body.gs', 'gcv.ids', 'snap.vid'},
   oracles=[O.o_c06],
   plan={'quick': [hist('c06', 120, 'mem:http,sql:http,sqlre:lib')], 'thorough': [hist('c06', 1500, 'mem:http,sql:http,sqlre:lib')]})
 
